@@ -92,8 +92,9 @@ def run(ctx, f, rep):
         keys_all = False
         collects = False
         for p in pathq.paths(f, ua, max_visits=2):
-            for i, ev in pathq.calls(p, "collect"):
-                if pathq.mentions_call(ev.args[0], lambda y: short(y[1]) == "keys") is not None and pathq.mentions_call(ev.args[0], lambda y: short(y[1]) == "binds") is not None:
+            # the snapshot: keys().cloned().collect() / Vec::from_iter(keys()..) / extend(keys()..) / a loop pushing every key
+            for i, ev in pathq.calls(p, "collect", "from_iter", "extend", "push", "push_back"):
+                if any(pathq.mentions_call(a, lambda y: short(y[1]) == "keys") is not None and pathq.mentions_call(a, lambda y: short(y[1]) == "binds") is not None for a in ev.args):
                     keys_all = True
             for i, ev in pathq.calls(p, "push"):
                 if "Vec" in ev.name and pathq.mentions_call(ev.args[1], lambda y: pathq.is_poll_of(y, "unbind")) is not None:
